@@ -120,7 +120,7 @@ func init() {
 // package initialisation (every function and init prints) and the final values.
 func TestPropGcPackages(t *testing.T) {
 	batch := 16
-	ev.Check(t, ev.N{Quick: 12, Thorough: 400}, func(t *rapid.T) {
+	ev.Check(t, ev.N{Quick: 12, Thorough: 140}, func(t *rapid.T) {
 		n := rapid.IntRange(batch/2, batch).Draw(t, "nmodules")
 		mods := make([]map[string]string, n)
 		shape := make([]int, n)
